@@ -255,6 +255,15 @@ def main():
             if rule.get('violation_tags') and not tags & set(rule['violation_tags']):
                 return False
         return True
+    # a violation that a shared suite has classified as the shape of a known finding recorded under
+    # ANOTHER property (tag = that finding's id) is that property's, not this one's
+    foreign_ids = {k.get('id') for k in load_known() if k.get('property') != pid and k.get('id') and 'fixed' not in k}
+    inner_claimed = claimed
+
+    def claimed(item, is_violation):   # noqa: F811
+        if is_violation and foreign_ids & set(item.get('tags') or []):
+            return False
+        return inner_claimed(item, is_violation)
     all_dis = [d for _m, r in results for d in r.disagreements]
     all_vio = [(m, v) for m, r in results for v in r.violations]
     disagreements = [d for d in all_dis if claimed(d, False)]
